@@ -300,14 +300,23 @@ def r12(ctx: Ctx):
     n += 1
     ps = FuncInfo(m.module, m.qualname, m.node, m.cls).params()[1:]
     ok = False
+    failure_only = None
     for x in ast.walk(m.node):
       if isinstance(x, ast.If) and any(
-          (is_self_attr(y) and y.attr in ('_exception', 'exception')) for y in ast.walk(x.test)):
+          (is_self_attr(y) and y.attr in ('_exception', 'exception', 'enqueue_done', '_stop_requested')) for y in ast.walk(x.test)):
         if any(isinstance(c, ast.Call) and isinstance(c.func, ast.Attribute) and c.func.attr == 'maybe_stop'
                and isinstance(c.func.value, ast.Name) and c.func.value.id in ps for b in x.body for c in ast.walk(b)):
           ok = True
-    what = f'IteratorQueue.{lname}: a queue that has already failed stops the newly linked queue at once'
-    if ok:
+          if not any(is_self_attr(y) and y.attr == 'enqueue_done' for y in ast.walk(x.test)):
+            failure_only = x.test
+    what = f'IteratorQueue.{lname}: a queue that is already over (failed, stopped or exhausted) stops the newly linked queue at once'
+    if ok and failure_only is not None:
+      ctx.fail(rule, m, what,
+               f'{lname}() stops its argument only under `{unparse(failure_only)}`: the stacking function makes the link AFTER it'
+               ' launched the workers, so workers that finish NORMALLY before the link exists (a worker function that reads'
+               ' little or nothing) have already run the end-of-stream path with nothing linked — the feeder threads stay'
+               ' blocked in put() on the full input queue', node=m.node)
+    elif ok:
       ctx.ok(rule, m, what, m.node)
     else:
       ctx.fail(rule, m, what,
@@ -766,8 +775,14 @@ VARIANTS = [
       "    if self.enqueue_done:\n      # The stream is over (failed, stopped, or every enqueuer is done): what",
       "    if self.exception is not None:\n      # The stream is over (failed, stopped, or every enqueuer is done): what", 'R-C13-12'),
     B('link-ignores-earlier-failure', 'utils/iter_utils.py',
-      "    self._stopped_with.append(other)\n    if self.exception is not None:\n      # Already failed, e.g., on the very first element.\n      other.maybe_stop()\n",
+      "    self._stopped_with.append(other)\n    if self.enqueue_done:\n      # Already over, e.g., failed on the very first element.\n      other.maybe_stop()\n",
       "    self._stopped_with.append(other)\n", 'R-C13-12'),
+    B('revert-link-stops-on-failure-only', 'utils/iter_utils.py',
+      "    self._stopped_with.append(other)\n    if self.enqueue_done:\n      # Already over",
+      "    self._stopped_with.append(other)\n    if self.exception is not None:\n      # Already over", 'R-C13-12'),
+    OK('link-stops-when-over-or-failed', 'utils/iter_utils.py',
+       "    self._stopped_with.append(other)\n    if self.enqueue_done:\n      # Already over",
+       "    self._stopped_with.append(other)\n    if self.exception is not None or self.enqueue_done:\n      # Already over"),
     OK('failure-stops-linked-through-helper', 'utils/iter_utils.py',
        "    if self.enqueue_done:\n      # The stream is over (failed, stopped, or every enqueuer is done): what\n      # feeds its enqueuers is stopped as well, its threads are otherwise\n      # blocked on their full queue for good.\n      for other in self._stopped_with:\n        other.maybe_stop()\n",
        "    if self.enqueue_done:\n      self._stop_linked()\n\n  def _stop_linked(self):\n    for other in self._stopped_with:\n      other.maybe_stop()\n"),
